@@ -187,6 +187,11 @@ Print Assumptions C14_strip_colour_codes_never_longer.
 Theorem C14_strip_leaves_text_without_esc : forall s, ~ In src_sgr_esc s -> strip_sgr s = s.
 Proof. exact strip_sgr_plain. Qed.
 Print Assumptions C14_strip_leaves_text_without_esc.
+(* message texts are arbitrary code units: on a text that is not well-formed UTF-16 (lone surrogate) the regular
+   expression matches nothing, the text - colour codes included - reaches the file as it is (observed on the real chain) *)
+Theorem C14_strip_ill_formed_text_untouched : forall s, utf16_ok s = false -> strip_sgr s = s.
+Proof. exact strip_sgr_ill_formed. Qed.
+Print Assumptions C14_strip_ill_formed_text_untouched.
 (* an UNFINISHED colour code at the end of the text (ESC [ and parameters, no final byte behind it) is kept and the
    remover returns: the message text on which a "find ESC [, then find the final byte" loop does not come back *)
 Theorem C14_strip_returns_on_unfinished_code : forall s ps, ~ In src_sgr_esc s -> forallb is_sgr_param ps = true ->
@@ -236,6 +241,10 @@ Proof. vm_compute. reflexivity. Qed.
 Example C14_strip_nonvacuous :
   strip_sgr (A [27;91;49;59;51;50;109;73;27;91;48;109;32;120;32;27;91;109;27;91;49;59;51]) = A [73;32;120;32;27;91;49;59;51].
 Proof. vm_compute. reflexivity. Qed.
+(* ... and with a lone low surrogate in front nothing is removed *)
+Example C14_strip_ill_formed_nonvacuous :
+  strip_sgr (A [56832;27;91;48;109;120]) = A [56832;27;91;48;109;120] /\ strip_sgr (A [55357;56832;27;91;48;109;120]) = A [55357;56832;120].
+Proof. vm_compute. split; reflexivity. Qed.
 (* configure chain, debug message "a" ESC "[1;3" in category "app": "  [app] a" ESC "[1;3" reaches the file *)
 Example C14_configure_chain_nonvacuous :
   configure_seq_raw_c 0 [ (Debug, Some (A [97;112;112]), A [97;27;91;49;59;51]) ]
